@@ -48,8 +48,8 @@ def gen_case(rng, tier="quick"):
          "hseed": rng.randrange(1 << 30)}
     if m.pop("_long") and d < 4:
         # many imaginary-time steps (nothing in the property limits them)
-        m["n_steps"] = _pick(rng, [64, 65, 100, 128, 129] if d == 2
-                             else [64, 65])
+        m["n_steps"] = _pick(rng, [64, 65, 100, 128, 129, 131, 150, 200,
+                                   257] if d == 2 else [64, 65])
     if kind == "commuting":
         m["alpha"] = _r(rng, 0.05, 0.6)
         m["energies"] = [_r(rng, -1.5, 1.5) for _ in range(d)]
@@ -103,8 +103,17 @@ def gen_case(rng, tier="quick"):
         # coupling strength (process-wide memo state must not leak)
         pre = []
         for _ in range(rng.randrange(1, 3)):
-            v = _pick(rng, ["n_steps", "temperature", "alpha", "coupling"])
-            if v == "n_steps":
+            v = _pick(rng, ["n_steps", "temperature", "alpha", "coupling",
+                            "hamiltonian"])
+            if v == "hamiltonian":
+                # the same bath, temperature and number of steps with
+                # another system Hamiltonian only
+                pre.append({"hseed": rng.randrange(1 << 30),
+                            "energies": [_r(rng, -1.5, 1.5)
+                                         for _ in range(d)]}
+                           if kind == "commuting" else
+                           {"hseed": rng.randrange(1 << 30)})
+            elif v == "n_steps":
                 pre.append({"n_steps": _pick(
                     rng, [x for x in range(2, 10) if x != m["n_steps"]])})
             elif v == "temperature":
@@ -119,7 +128,9 @@ def gen_case(rng, tier="quick"):
             # coupled low-temperature variant of a many-step model in
             # dimension 4 can take minutes (bond dimensions), so the
             # variants of long models use few steps
-            if "n_steps" not in v and m["n_steps"] > 8:
+            if "n_steps" not in v and m["n_steps"] > 8 \
+                    and not ("hseed" in v and m["n_steps"] <= 40
+                             and (d < 4 or kind in ("commuting", "zero"))):
                 v["n_steps"] = 8
         case["prelude"] = pre
     return case
